@@ -337,6 +337,7 @@ class NcpEndpoint:
         self.dec = Decoder()
         self.connected = True  # False before the first RST in engines that model power-up
         self.silent = False  # fault: NCP stops doing anything
+        self.rst_delay = 0.0  # time the NCP takes to process an RST
         self._init_state()
         # history (survives resets)
         self.delivered = []  # payloads handed to the NCP upper layer
@@ -453,7 +454,10 @@ class NcpEndpoint:
     def _frame(self, fr):
         kind = fr[0]
         if kind == "rst":
-            self.do_reset()
+            if self.rst_delay:
+                self.loop.call_later(self.rst_delay, self.do_reset)
+            else:
+                self.do_reset()
             return
         if self.failed is not None:
             # in the ERROR state every frame except RST is answered by ERROR
@@ -496,6 +500,8 @@ class NcpEndpoint:
         # rstack / error from the host: ignored
 
     def do_reset(self, code=None):
+        if self.silent:
+            return
         if self.timer is not None:
             self.timer.cancel()
         self._cancel_ack_timer()
